@@ -232,6 +232,12 @@ mux_set_input(struct mux *mux, int64_t index, struct chan *chan)
 	return 0;
 }
 
+int
+mux_reselect(struct mux *mux)
+{
+	return cb_select(mux->select, mux);
+}
+
 void
 mux_set_default(struct mux *mux, struct value def)
 {
